@@ -1367,6 +1367,13 @@ func (c *FnCtx) havocForLoop(st *State, ms *modSet) {
 	na := c.fresh("alloc", "Int")
 	c.assume(st, sx(">=", na, oldAlloc))
 	st.alloc = na
+	// every slice header stored in memory refers to memory allocated before now
+	for _, k := range ks {
+		if strings.HasSuffix(k, "_ref") && !strings.HasPrefix(k, "P_") && !strings.HasPrefix(k, "G_") && c.heapSort(k) == "Int" {
+			sym := st.heaps[k]
+			c.assume(st, fmt.Sprintf("(forall ((r Int) (i Int)) (! (< (%s r i) %s) :pattern ((%s r i))))", sym, na, sym))
+		}
+	}
 	// every reference held in a variable was allocated before now
 	for _, o := range objs {
 		c.refsBelow(st, st.env[o], na)
